@@ -4,3 +4,4 @@ pub fn zz_smoke<S: Src>(s: &mut S) {
     vcover!(a == 1, "smoke");
     vassert!(a as u16 + 1 > 0, "smoke: trivially true");
 }
+
